@@ -22,7 +22,8 @@ RULE = ("cases = (type-consistent nested trees, depth <= 4, for the nine levels 
         "permitted order of the public load calls with constructor arguments, redundant loads and merge=False mixed in; "
         "modifications through attribute/item writes before and after load_shell_env); plus the enumeration of all 36 "
         "level pairs x depth 1-3 x {disjoint, overlapping leaf, overlapping section} and all 15 subsets of candidate "
-        "suffixes per file location; non-trivial = some path is defined by at least two levels; distinct = distinct cases")
+        "suffixes per file location, and random runs of the real CLI (Program.run: flags -> overrides, -f / INVOKE_RUNTIME_CONFIG -> "
+        "runtime file, tasks.py -> collection + project file); non-trivial = some path is defined by at least two levels; distinct = distinct cases")
 TRUSTED = ["Lean 4.33 kernel", "axioms propext/Classical.choice/Quot.sound only",
            "harness/props/c03.py + harness/valcodec.py correspondence and canonicalisation",
            "tools/extractors/config.py (behavioural probing of merge order and suffix order)",
@@ -254,6 +255,148 @@ def merge_cases(ctx, rng):
     return out
 
 
+
+# ------------------------------------------------------------------ the real CLI lifecycle (invoke.program.Program)
+
+FLAG_SETTINGS = [(("run", "echo"), "-e", True), (("run", "warn"), "-w", True), (("tasks", "dedupe"), "--no-dedupe", False),
+                 (("timeouts", "command"), "-T", 7)]
+CLI_SCHEMA = {"verif": {"x": "str", "n": "int", "flag": "bool", "s": {"y": "str", "z": "none_or_str"}},
+              "run": {"echo": "bool", "warn": "bool"}, "tasks": {"dedupe": "bool"}, "timeouts": {"command": "int"}}
+
+
+def gen_program_case(rng):
+    levels = {}
+    for lvl in ("defaults", "collection", "system", "user", "project", "runtime"):
+        if rng.random() < 0.65:
+            sch = CLI_SCHEMA if lvl != "defaults" else {"verif": CLI_SCHEMA["verif"]}
+            levels[lvl] = tag(gen_level(rng, sch, 0.5))
+        else:
+            levels[lvl] = None
+    flags = [i for i in range(len(FLAG_SETTINGS)) if rng.random() < 0.4]
+    environ = {}
+    for p, ty in leaves(CLI_SCHEMA):
+        if rng.random() < 0.25:
+            environ["INVOKE_" + var_of(p)] = env_value(rng, ty)
+    files = {l: rng.choice(SUFFIXES) for l in FILE_LEVELS if levels.get(l) is not None}
+    return {"kind": "program", "levels": levels, "flags": flags, "environ": environ, "files": files,
+            "runtime_via_env": rng.random() < 0.4}
+
+
+TASKS_PY = """
+import json
+from invoke import task, Collection
+
+@task
+def probe(c):
+    cfg = c.config
+    def plain(o):
+        return {k: plain(o[k]) for k in o.keys()} if hasattr(o, "keys") else o
+    out = {"verif": plain(cfg["verif"]) if "verif" in cfg else None,
+           "run": {"echo": cfg.run.echo, "warn": cfg.run.warn}, "tasks": {"dedupe": cfg.tasks.dedupe},
+           "timeouts": {"command": cfg.timeouts.command}}
+    with open(%r, "w") as f:
+        json.dump(out, f)
+
+ns = Collection(probe)
+ns.configure(%r)
+"""
+
+
+def run_program(case):
+    """-> (observed settings | None, exception class | None, the class' global defaults restricted to the observed paths)"""
+    import io
+    import contextlib
+    from invoke.config import Config
+    from invoke.program import Program
+    root = tempfile.mkdtemp(prefix="verif_c03_")
+    try:
+        dirs = {k: os.path.join(root, k) for k in ("system", "user", "project")}
+        for d in dirs.values():
+            os.makedirs(d)
+        lv = {l: (build(t) if t is not None else None) for l, t in case["levels"].items()}
+        extra_defaults = copy.deepcopy(lv["defaults"] or {})
+
+        class CliConfig(Config):
+            @staticmethod
+            def global_defaults():
+                d = Config.global_defaults()
+                d.update(copy.deepcopy(extra_defaults))
+                return d
+
+            def __init__(self, *a, **kw):
+                kw.setdefault("system_prefix", os.path.join(dirs["system"], ""))
+                kw.setdefault("user_prefix", os.path.join(dirs["user"], "."))
+                super().__init__(*a, **kw)
+        stems = {"system": os.path.join(dirs["system"], "invoke."), "user": os.path.join(dirs["user"], ".invoke."),
+                 "project": os.path.join(dirs["project"], "invoke.")}
+        rt_path = None
+        for lvl, sfx in case["files"].items():
+            if lvl == "runtime":
+                rt_path = os.path.join(root, "rt." + sfx)
+                write_file(rt_path, sfx, lv[lvl])
+            else:
+                write_file(stems[lvl] + sfx, sfx, lv[lvl])
+        dump = os.path.join(root, "observed.json")
+        with open(os.path.join(dirs["project"], "tasks.py"), "w") as f:
+            f.write(TASKS_PY % (dump, lv["collection"] or {}))
+        argv = ["inv", "--search-root", dirs["project"]]
+        environ = dict(case["environ"])
+        if rt_path:
+            if case["runtime_via_env"]:
+                environ["INVOKE_RUNTIME_CONFIG"] = rt_path
+            else:
+                argv += ["-f", rt_path]
+        for i in case["flags"]:
+            _, flag, val = FLAG_SETTINGS[i]
+            argv += [flag] + ([str(val)] if flag == "-T" else [])
+        argv.append("probe")
+        gd = plain(Config.global_defaults())
+        base = {"run": {"echo": gd["run"]["echo"], "warn": gd["run"]["warn"]}, "tasks": {"dedupe": gd["tasks"]["dedupe"]},
+                "timeouts": {"command": gd["timeouts"]["command"]}}
+        try:
+            with replaced_environ(environ), contextlib.redirect_stdout(io.StringIO()), contextlib.redirect_stderr(io.StringIO()):
+                Program(config_class=CliConfig).run(argv, exit=False)
+            with open(dump) as f:
+                return json.load(f), None, base
+        except BaseException as e:  # noqa  (Exit / SystemExit included)
+            return None, type(e).__name__, base
+    finally:
+        shutil.rmtree(root, ignore_errors=True)
+
+
+def oracle_program(case, seen, exc, base):
+    if exc is not None:
+        return "running the CLI with a type-consistent configuration raised %s" % exc
+    t = {l: (build(x) if x is not None else {}) for l, x in case["levels"].items()}
+    t["defaults"] = overlay(base, t["defaults"])
+    t["overrides"] = {}
+    for i in case["flags"]:
+        p, _, val = FLAG_SETTINGS[i]
+        t["overrides"] = overlay(t["overrides"], nest(list(p[:-1]), {p[-1]: val}))
+    t["modifications"] = {}
+    lower = {}
+    for lvl in ORDER:
+        if lvl != "env":
+            lower = overlay(lower, t[lvl])
+    env = {}
+    for p, cur in leaves(lower):
+        name = "INVOKE_" + var_of(p)
+        if name in case["environ"]:
+            env = overlay(env, nest(list(p[:-1]), {p[-1]: cast_env(cur, case["environ"][name])}))
+    t["env"] = env
+    want = {}
+    for lvl in ORDER:
+        for p, v in leaves(t[lvl]):
+            want[p] = (lvl, typed(v))
+    got = {p: typed(v) for p, v in leaves({k: v for k, v in seen.items() if v is not None})}
+    for p, (lvl, tv) in want.items():
+        if got.get(p) != tv:
+            return "CLI run: setting %s shows %s but the highest level defining it (%s) says %s" % (
+                ".".join(p), got.get(p, ("", "<absent>"))[1], lvl, tv[1])
+    if set(got) - set(want):
+        return "CLI run: setting %s is visible but no level defines it" % ".".join(sorted(set(got) - set(want))[0])
+    return None
+
 # ------------------------------------------------------------------ running the real code
 
 def write_file(path, suffix, data):
@@ -392,7 +535,10 @@ def run_suffix(case):
 
 
 def run_merge(case):
-    from invoke.config import merge_dicts, copy_dict
+    try:
+        from invoke.config import merge_dicts, copy_dict
+    except ImportError:
+        return None
     try:
         return "ok " + enc_tree(merge_dicts(copy_dict(build(case["base"])), build(case["upd"])), canon=True)
     except Exception as e:  # noqa
@@ -470,6 +616,10 @@ def replay(case):
         got = run_suffix(case)
         why = oracle_suffix(case, got)
         return why is None, why or "ok (%s)" % got
+    if case["kind"] == "program":
+        seen, exc, base = run_program(case)
+        why = oracle_program(case, seen, exc, base)
+        return why is None, why or "ok"
     return True, "auxiliary differential case (no property statement attached)"
 
 
@@ -500,7 +650,7 @@ def run(ctx):
     rng = ctx.rng
     drv = LeanDriver("drv_val")
     cases = pair_cases(SUFFIXES if (ctx.thorough or ctx.escalated) else ("json",))
-    cases += [gen_case(rng) for _ in range(ctx.n(1500, 30000))]
+    cases += [gen_case(rng) for _ in range(ctx.n(3000, 40000))]
     sfx = suffix_cases()
     mrg = merge_cases(ctx, rng)
     lines = [view_line(c) for c in cases]
@@ -550,11 +700,23 @@ def run(ctx):
     for c, m in zip(mrg, model[len(cases) + len(sfx):]):
         got = run_merge(c)
         out.evaluations += 1
+        if got is None:
+            out.hist["merge_dicts:helper_gone"] += 1
+            continue
         out.hist["merge_dicts:" + got[:3]] += 1
         if m is not None:
             out.traces += 1
             if m != got:
                 out.disagree(c, got[:300], m[:300])
+    for _ in range(ctx.n(150, 2500)):
+        c = gen_program_case(rng)
+        seen, exc, base = run_program(c)
+        out.case(c, True)
+        out.hist["program"] += 1
+        out.hist["program_flags:%d" % len(c["flags"])] += 1
+        why = oracle_program(c, seen, exc, base)
+        if why:
+            out.fail(c, why)
     out.exhaustive = True  # level pairs x depth x overlap shape, and suffix subsets, are enumerated completely
     out.extra["table_obligations"] = 3  # generated_order_documented, merge_order_levels, generated_suffixes_documented
     return out
